@@ -128,25 +128,27 @@ Qed.
 (* the transition table: the configuration is kept; the delayed-ACK timer is kept or cleared
    (RST in SYN-RECEIVED of a listener: reset()) *)
 Definition auxr (s' s : socket) : Prop :=
-  cfgf s' s /\ (s_ack_delay_timer s' = s_ack_delay_timer s \/ s_ack_delay_timer s' = ADIdle).
+  cfgf s' s /\ (s_ack_delay_timer s' = s_ack_delay_timer s \/
+               (s_ack_delay_timer s' = ADIdle /\ (s_state s' = Listen \/ s_state s' = Closed))).
 
 Lemma auxf_auxr a b : auxf a b -> auxr a b.
 Proof. intros (H1 & H2). split; [exact H1 | left; exact H2]. Qed.
 Lemma auxr_refl s : auxr s s.
 Proof. apply auxf_auxr, auxf_refl. Qed.
-Lemma auxr_trans a b c : auxr a b -> auxr b c -> auxr a c.
+Lemma auxr_auxf_trans a b c : auxr a b -> auxf b c -> auxr a c.
 Proof.
   intros (A1 & A2) (B1 & B2). split; [eapply cfgf_trans; eassumption|].
-  destruct A2 as [A2|A2]; [|right; exact A2]. destruct B2 as [B2|B2]; [left | right]; congruence.
+  destruct A2 as [A2|A2]; [left; congruence | right; exact A2].
 Qed.
 
 Lemma reset_auxr s : auxr (tcp_reset s) s.
-Proof. unfold tcp_reset, auxr, cfgf. rproj. split; [repeat split; reflexivity | right; reflexivity]. Qed.
+Proof. unfold tcp_reset, auxr, cfgf. rproj. split; [repeat split; reflexivity | right; split; [reflexivity | right; reflexivity]]. Qed.
 
 Lemma relisten_auxr s ep : auxr (tcp_set_state (upd_listen_endpoint (tcp_reset s) ep) Listen) s.
 Proof.
   pose proof (reset_auxr s) as H. revert H. generalize (tcp_reset s). intros q ((H1 & H2 & H3) & H4).
-  unfold auxr, cfgf. rproj. split; [repeat split; assumption | exact H4].
+  unfold auxr, cfgf. rproj. split; [repeat split; assumption|].
+  destruct H4 as [H4 | (H4 & _)]; [left; exact H4 | right; split; [exact H4 | left; reflexivity]].
 Qed.
 
 Lemma transition_auxr cx s ip r ctl al aof res :
@@ -267,7 +269,8 @@ Qed.
 (* process as a whole *)
 Lemma process_aux cx s ip r s' rep tags :
   tcp_process cx s ip r = Ok (s', rep, tags) ->
-  cfgf s' s /\ (delack_step (cx_now cx) s' s \/ s_ack_delay_timer s' = ADIdle).
+  cfgf s' s /\ (delack_step (cx_now cx) s' s \/
+               (s_ack_delay_timer s' = ADIdle /\ (s_state s' = Listen \/ s_state s' = Closed))).
 Proof.
   intros H. unfold tcp_process in H.
   destruct (negb (tcp_accepts s ip r)); [discriminate|].
@@ -283,7 +286,7 @@ Proof.
   apply obind_ok_inv in H. destruct H as (p3 & H3 & H).
   pose proof (transition_auxr _ _ _ _ _ _ _ _ H3) as P3.
   destruct p3 as [t3 s3|t3 s3r rep3].
-  2:{ inversion H; subst. destruct (auxr_trans _ _ _ P3 (auxf_auxr _ _ P2)) as (C & [T|T]).
+  2:{ inversion H; subst. destruct (auxr_auxf_trans _ _ _ P3 P2) as (C & [T|T]).
       - split; [exact C | left; left; exact T].
       - split; [exact C | right; exact T]. }
   apply obind_ok_inv in H. destruct H as ((s4 & wu) & H4 & H).
@@ -312,10 +315,12 @@ Qed.
 
 Lemma ingress_aux cx s ip r s' rep tags :
   iface_tcp_ingress cx s ip r = Ok (s', rep, tags) ->
-  cfgf s' s /\ (delack_step (cx_now cx) s' s \/ s_ack_delay_timer s' = ADIdle).
+  cfgf s' s /\ (delack_step (cx_now cx) s' s \/
+               (s_ack_delay_timer s' = ADIdle /\ (s_state s' = Listen \/ s_state s' = Closed))).
 Proof.
   unfold iface_tcp_ingress. intros H.
-  assert (Hid : cfgf s s /\ (delack_step (cx_now cx) s s \/ s_ack_delay_timer s = ADIdle))
+  assert (Hid : cfgf s s /\ (delack_step (cx_now cx) s s \/
+                             (s_ack_delay_timer s = ADIdle /\ (s_state s = Listen \/ s_state s = Closed))))
     by (split; [apply cfgf_refl | left; left; reflexivity]).
   destruct ((ip_src ip =? 0) || (ip_dst ip =? 0)); [inversion H; subst; exact Hid|].
   destruct ((r_src_port r =? 0) || (r_dst_port r =? 0)); [inversion H; subst; exact Hid|].
@@ -397,7 +402,7 @@ Proof.
   unfold tcp_dispatch. intros H.
   destruct (s_tuple s) as [t|]; [|inversion H; subst; split; [apply cfgf_refl | left; reflexivity]].
   destruct (negb (tu_local_addr t =? cx_addr cx)).
-  { inversion H; subst. exact (reset_auxr s). }
+  { inversion H; subst. destruct (reset_auxr s) as (C & [T | (T & _)]); (split; [exact C|]); [left | right]; exact T. }
   apply obind_ok_inv in H. destruct H as ((s1 & t1) & H1 & H).
   pose proof (dispatch_timers_auxf _ _ _ _ H1) as P1.
   apply obind_ok_inv in H. destruct H as (((s2 & go) & t2) & H2 & H).
@@ -411,6 +416,25 @@ Proof.
   pose proof (dispatch_finish_aux cx s3 repr zwp ka) as (F1 & F2).
   destruct (tcp_dispatch_finish cx s3 repr zwp ka) as (s4, t4). cbn [fst] in F1, F2.
   inversion H; subst. split; [eapply cfgf_trans; eassumption | right; exact F2].
+Qed.
+
+(* a dispatch that transmits nothing (and does not reset the socket) leaves the timer alone *)
+Lemma dispatch_nothing_timer cx s ok s' tags t :
+  s_tuple s = Some t -> tu_local_addr t = cx_addr cx ->
+  tcp_dispatch cx s ok = Ok (s', DNothing, tags) -> s_ack_delay_timer s' = s_ack_delay_timer s.
+Proof.
+  unfold tcp_dispatch. intros Ht Ha H. rewrite Ht, Ha, Z.eqb_refl in H. cbn [negb] in H.
+  apply obind_ok_inv in H. destruct H as ((s1 & t1) & H1 & H).
+  pose proof (dispatch_timers_auxf _ _ _ _ H1) as P1.
+  apply obind_ok_inv in H. destruct H as (((s2 & go) & t2) & H2 & H).
+  pose proof (dispatch_decide_auxf _ _ _ _ _ H2) as P2.
+  pose proof (auxf_trans _ _ _ P2 P1) as P12.
+  destruct (negb go); [inversion H; subst; apply P12|].
+  apply obind_ok_inv in H. destruct H as (((((s3 & orepr) & zwp) & ka) & t3) & H3 & H).
+  pose proof (auxf_trans _ _ _ (dispatch_build_auxf _ _ _ _ _ _ _ _ H3) P12) as (C3 & T3).
+  destruct orepr as [repr|]; [|inversion H; subst; exact T3].
+  destruct (negb ok); [inversion H|].
+  destruct (tcp_dispatch_finish cx s3 repr zwp ka) as (s4, t4). inversion H.
 Qed.
 
 (* ---------------------------------------------------------------------------------------- *)
@@ -445,7 +469,7 @@ Proof.
     + destruct (recv_slice_auxf _ _ _ _ E) as (C & T). split; [exact C | left; left; exact T].
     + split; [apply cfgf_refl | left; left; reflexivity].
   - apply obind_ok_inv in H. destruct H as (((s1 & rep) & tg) & Hi & H). inversion H; subst.
-    exact (ingress_aux _ _ _ _ _ _ _ Hi).
+    destruct (ingress_aux _ _ _ _ _ _ _ Hi) as (C & [T | (T & _)]); (split; [exact C|]); [left | right]; exact T.
   - apply obind_ok_inv in H. destruct H as (((s1 & res) & tg) & Hd & H). inversion H; subst.
     destruct (dispatch_aux _ _ _ _ _ _ Hd) as (C & [T|T]); (split; [exact C|]); [left; left; exact T | right; exact T].
 Qed.
